@@ -28,7 +28,7 @@ RATES = [3e9, 2.4e9, 1.7e8, 1e6, 48000.0, 1.5e9, 2999999987.0, 104729.0, 2.79396
 
 
 def required(tier):
-    b = {'kind:arith': 100, 'kind:record': 30, 'duration:exact-multiple': 50, 'duration:ulp-neighbour': 30, 'duration:random': 30,
+    b = {'kind:arith': 100, 'kind:record': 30, 'duration:exact-multiple': 50, 'duration:ulp-neighbour': 30, 'duration:random': 30, 'duration:just-below-boundary': 100, 'duration:many-blocks': 100, 'record:from_data-longer-than-input': 8,
          'record:obs_length-mode': 10, 'record:num_blocks-mode': 10, 'bits:4': 20, 'array': 20}
     return {'buckets': b, 'counters': {'durations_judged': 500, 'ledgered_requests': 100}, 'checks': 3000, 'nontrivial': 100}
 
@@ -114,6 +114,25 @@ def check_static(stg, R, rvb, sample_rate, P, nants, nchan, npol, bits, spb, blo
         got = rvb.get_num_blocks(float(T))
         R.count('durations_judged')
         R.check(got in adm, 'get_num_blocks:ulp-neighbour', T=float(T), got=int(got), admissible=sorted(adm))
+    # just below a block boundary by relative deltas far larger than the 1e-9 band: must NOT be rounded up
+    for delta in (1e-8, 1e-6, 2e-5, 1e-4, 1e-3):
+        R.bucket('duration:just-below-boundary')
+        T = float((n - delta) * tpb) if n >= 1 else None
+        if T is None or T <= 0:
+            continue
+        adm, x = blocks_for(T, tpb)
+        got = rvb.get_num_blocks(T)
+        R.count('durations_judged')
+        R.check(got in adm, 'get_num_blocks:just-below-boundary', T=T, got=int(got), admissible=sorted(adm), delta=delta)
+    # long observations: many blocks, arbitrary fractional part
+    for _ in range(3):
+        R.bucket('duration:many-blocks')
+        nb = float(10 ** rng.uniform(3.5, 7.5)) + float(rng.uniform(0, 1))
+        T = nb * tpbf
+        adm, x = blocks_for(T, tpb)
+        got = rvb.get_num_blocks(T)
+        R.count('durations_judged')
+        R.check(got in adm, 'get_num_blocks:many-blocks', T=T, got=int(got), admissible=sorted(adm), x=float(x))
     for _ in range(3):
         R.bucket('duration:random')
         T = float(rng.uniform(0.0, 14.0)) * tpbf
@@ -227,6 +246,49 @@ def run_case(c, R):
         R.check(near(guppi.parse_value(h['SCANLEN']), n * tpb, 2), 'header-SCANLEN', got=h['SCANLEN'], want=float(n * tpb))
         R.check(guppi.parse_value(h['PKTIDX']) == bi * spb, 'header-PKTIDX', got=h['PKTIDX'], want=bi * spb)
         R.check(guppi.parse_value(h['PKTSTOP']) - guppi.parse_value(h['PKTSTART']) == n * spb, 'header-PKTSTOP', got=h['PKTSTOP'], want=n * spb)
+    # ---- a backend built from this recording, asked for MORE than the input holds: every reported length describes what was recorded
+    if c['_idx'] % 16 == 7 and n >= 1 and cfg['nants'] == 1:
+        R.bucket('record:from_data-longer-than-input')
+        v = stg.voltage
+        ant = v.Antenna(sample_rate=cfg['sample_rate'], fch1=cfg['fch1'], ascending=cfg['asc'], num_pols=cfg['npol'], seed=3)
+        ant.x.add_constant_signal(f_start=cfg['fch1'] + (cfg['start_chan'] + 0.3) * cfg['sample_rate'] / cfg['P'] * (1 if cfg['asc'] else -1),
+                                  drift_rate=0, level=0.01)
+        fb = v.PolyphaseFilterbank(num_taps=cfg['M'], num_branches=cfg['P'])
+        fb.estimate_channelized_stds(factor=40, seed=1)
+        with common.quiet():
+            b2 = v.RawVoltageBackend.from_data(stem, ant, filterbank=fb, start_chan=cfg['start_chan'], num_subblocks=1)
+        bd2 = work_raw.Boundary(ant)
+        t0b = float(ant.t_start)
+        stem2 = stem + '_re'
+        try:
+            with common.quiet():
+                if c['mode'] == 'num_blocks':
+                    b2.record(stem2, num_blocks=n + 2, length_mode='num_blocks', header_dict={}, load_template=False, verbose=False)
+                else:
+                    b2.record(stem2, obs_length=(n + 2.5) * float(b2.time_per_block), length_mode='obs_length', header_dict={},
+                              load_template=False, verbose=False)
+        finally:
+            bd2.detach()
+        import glob as _glob
+        f2 = sorted(_glob.glob(stem2 + '.????.raw'))
+        try:
+            blocks2 = work_raw.read_blocks(f2)
+        except guppi.GuppiError as e:
+            R.violate('unparseable-recording:' + e.key, msg=str(e), which='from_data')
+            blocks2 = []
+        R.check(len(blocks2) == n, 'from_data:blocks-written', got=len(blocks2), want=int(n))
+        drawn = sum(s_ for s_, _ in bd2.log)
+        R.check(drawn == n * spb * P + M * P, 'from_data:antenna-samples-drawn', got=drawn, want=n * spb * P + M * P)
+        R.check(near(b2.obs_length, n * tpb, 2), 'from_data:obs_length-ignores-input-clamp', got=b2.obs_length, want=float(n * tpb))
+        R.check(b2.total_obs_num_samples == n * spb * P, 'from_data:total_obs_num_samples-ignores-input-clamp',
+                got=int(b2.total_obs_num_samples), want=n * spb * P)
+        for blk in blocks2[:1]:
+            h = blk['header']
+            R.check(near(guppi.parse_value(h['SCANLEN']), n * tpb, 2), 'from_data:header-SCANLEN-ignores-input-clamp', got=h['SCANLEN'], want=float(n * tpb))
+            R.check(int(str(guppi.parse_value(h['PKTSTOP'])).strip("' ")) - int(str(guppi.parse_value(h['PKTSTART'])).strip("' ")) == n * spb,
+                    'from_data:header-PKTSTOP', got=h['PKTSTOP'])   # inherited cards are re-written as strings
+        for f in f2:
+            os.remove(f)
     for f in rec['files']:
         os.remove(f)
     R.mark_nontrivial(n >= 2)
